@@ -31,6 +31,11 @@ def jobs(tier):
         for sc in scen[:7]:
             js.append({'name': 'two faults Build %s' % '/'.join(sc), 'harness': (H, 'h_faults'),
                        'params': {'nlines': len(sc), 'menu_name': 'small', 'mode': 'Build', 'fixed': sc, 'faults': 2}, 'split': 8})
+    # verify mismatch (tampered / extended / truncated / missing output) fails the run
+    for nl in (0, 1):
+        for pl in ([None, 0, 1, 2, 3] if quick else [None, 0, 1, 2, 3, 4, 5]):
+            js.append({'name': 'verify tampered output nlines=%d pre_out=%s' % (nl, pl), 'harness': (H, 'h_verify'),
+                       'params': {'nlines': nl, 'menu_name': 'small', 'pre_out_len': pl}})
     js += sched.jobs_c04(tier)
     return js
 
@@ -49,6 +54,9 @@ def replay(native, v):
     d = v['data']
     if d.get('op') == 'sched':
         return sched.replay(native, v)
+    if d.get('mode') == 'Verify' and 'faults' not in d:
+        from . import c06
+        return c06.replay(native, v)
     model = d['model']
     mode = d.get('mode', 'Build')
     faults = d.get('faults') or []
@@ -61,8 +69,8 @@ def replay(native, v):
     bad = False
     spec, env = ppreplay.spec_concrete(d, model, True)
     if not faults:
-        r = subprocess.run([cli] + list(MODE_ARGS[mode]) + ['-q', '-j', '1', '-s', os.path.join(bind, 'recsh') + ' -c', 'a.txt.txtpp'][: (4 if mode == 'Clean' else 6)] + (['a.txt.txtpp'] if mode == 'Clean' else []),
-                           cwd=work, env=e, capture_output=True)
+        sh = [] if mode == 'Clean' else ['-s', os.path.join(bind, 'recsh') + ' -c']
+        r = subprocess.run([cli] + list(MODE_ARGS[mode]) + ['-q', '-j', '1'] + sh + ['a.txt.txtpp'], cwd=work, env=e, capture_output=True)
         out = open(os.path.join(work, 'a.txt'), 'rb').read() if os.path.exists(os.path.join(work, 'a.txt')) else None
         detail.update({'rc': r.returncode, 'output': repr(out), 'spec_ok': spec.ok, 'spec_output': repr(bytes(spec.output))})
         bad = (r.returncode == 0 and (not spec.ok or (mode != 'Clean' and out != bytes(spec.output))))
